@@ -30,6 +30,7 @@ func runC01(c *Ctx) {
 	c10CopyOut(c)
 	rulePureCapture(c, "pure-capture")
 	ruleFmtStringer(c, "emit-all")
+	rulePurePrinters(c, "value-effects")
 	ruleNumberParsing(c, "cl-value", 1, "(*Message).GetHeaderInt")
 	ruleDatagramBuffer(c, "funnel")
 	c10Free(c)
